@@ -24,6 +24,7 @@ type C17Case struct {
 	Root              *Node     `json:"root,omitempty"` // free / reset
 	RO                bool      `json:"ro,omitempty"`
 	Func              string    `json:"func,omitempty"`               // pkgfunc
+	Prep              string    `json:"prep,omitempty"`               // reset: a step taken before the Reset (remove0 removelast insertfront pop remove+insert)
 	RejectingValidity bool      `json:"rejecting_validity,omitempty"` // reset: the installed validity policy rejects the stack
 	Variant           int       `json:"variant,omitempty"`
 }
@@ -343,6 +344,20 @@ func runC17Reset(c C17Case) (st Stats, err error) {
 			s.SetValidityPolicy(func(...any) error { return nil })
 		}
 		s.SetID("the-id").SetCategory("the-cat")
+		// a history before the Reset (re-built or shifted slot slices): it has no say in what Reset does
+		switch c.Prep {
+		case "remove0":
+			s.Remove(0)
+		case "removelast":
+			s.Remove(s.Len() - 1)
+		case "insertfront":
+			s.Insert("front", 0)
+		case "pop":
+			s.Pop()
+		case "remove+insert":
+			s.Remove(0)
+			s.Insert("front", 0)
+		}
 		before := configOnly(s)
 		s.Reset()
 		if s.Len() != 0 || !s.IsEmpty() {
@@ -374,6 +389,9 @@ func runC17Reset(c C17Case) (st Stats, err error) {
 		return st, v
 	}
 	st.Class("reset")
+	if c.Prep != "" {
+		st.Class("reset-after-a-history")
+	}
 	if c.RejectingValidity {
 		st.Class("reset-under-rejecting-validity-policy")
 	}
@@ -461,7 +479,8 @@ func genC17(t *rapid.T, tier Tier) C17Case {
 				root.Cap = len(root.Elems)
 			}
 		}
-		return C17Case{Mode: "reset", Root: &root, RejectingValidity: rapid.IntRange(0, 3).Draw(t, "rejecting-validity") == 0}
+		return C17Case{Mode: "reset", Root: &root, RejectingValidity: rapid.IntRange(0, 3).Draw(t, "rejecting-validity") == 0,
+			Prep: rapid.SampledFrom([]string{"", "", "remove0", "removelast", "insertfront", "pop", "remove+insert"}).Draw(t, "prep")}
 	case 2:
 		var root Node
 		if rapid.Bool().Draw(t, "cond") {
